@@ -146,3 +146,15 @@ func hex32(h uint32) string {
 // Only meaningful for single-task runs (plain increments).
 func Ops() uint64 { return w.ops }
 func ResetOps()   { w.ops = 0 }
+
+// AY ("atomic yield") is wrapped around the receiver / first argument of every sync/atomic
+// operation of the instrumented code: a scheduling point immediately before the operation.
+// Atomics are synchronisation operations; a check-then-act or a torn multi-word update built
+// from individually atomic accesses needs a switch exactly there.
+func AY[T any](site string, x T) T {
+	w.ops++
+	if Active() {
+		yield(kYield, 0, siteHash(site), 0)
+	}
+	return x
+}
